@@ -482,3 +482,16 @@ pub fn vp8_loop_filter(
 ) -> (Vec<u8>, Vec<u8>, Vec<u8>) {
     crate::vp8::verif_loop_filter(w, h, simple, sharpness, level, ybuf, ubuf, vbuf, mbs)
 }
+
+/// `Vp8Decoder::read_residual_data` for one macroblock (see `vp8::verif_read_residual_data`).
+#[allow(clippy::type_complexity)]
+pub fn vp8_read_residual_data(
+    data: &[u8],
+    probs: &[u8],
+    bpred: bool,
+    top: [u8; 9],
+    left: [u8; 9],
+    quant: [i16; 6],
+) -> Result<(Vec<i32>, bool, [u8; 9], [u8; 9]), DecodingError> {
+    crate::vp8::verif_read_residual_data(data, probs, bpred, top, left, quant)
+}
